@@ -1,6 +1,7 @@
 CONSTANTS
   Ext <- NoExtensions
   Conv = "bundled"
+  Variants = FALSE
   Syntax <- OnlyAdvanced
   Defects = FALSE
   Mode = "sim"
